@@ -20,7 +20,7 @@ def history_case(rng):
     st = w.new_stack()
     aac = rng.random() < 0.5
     name = j.Name(arbitrary_address_capable=aac, identity_number=rng.randrange(5, 1000), manufacturer_code=rng.randrange(2048))
-    pref = rng.choice([128, 200, 10, 250, 0, 0])          # 0 is a valid address
+    pref = rng.choice([128, 200, 10, 250, 0, 0, 253, 252])          # 0 is a valid address; 252/253: no room left after a loss (D28)
     bypass = rng.random() < 0.15
     ca = j.ControllerApplication(name, pref, bypass)
     st.ecu.add_ca(controller_application=ca)
